@@ -11,7 +11,8 @@ import BytomModel.Drv.Util
    ks <auth> <auth2> → ok | err-decrypt   (prediction: decrypts iff the passwords are equal)
    stateful key-store histories (reference model `Model/HSM.lean`; slots and passwords are numbers):
    reset → ok      hcreate <k> <pw> | hsign <k> <pw> | hcheck <k> <pw> | hresetpw <k> <old> <new>
-   | hdelete <k> <pw> | hreload → ok | err -/
+   | hdelete <k> <pw> | hreload → ok | err
+   csign <goroutines> <gomaxprocs> <seed> → ok   (all signatures of the concurrent batch equal the sequential ones) -/
 namespace BytomModel.Drv.C28
 open BytomModel.Drv BytomModel BytomModel.KD
 
@@ -72,6 +73,8 @@ def stepPure (ws : List String) : String :=
       | some x, some m, some s => toString (verify edGrp prf x m s)
       | _, _, _ => "bad-op"
     | ["ks", a, b] => if a == b then "ok" else "err-decrypt"
+    -- a concurrent signing batch: signing is a function of (key, message); concurrency changes nothing
+    | ["csign", _, _, _] => "ok"
     | _ => "bad-op"
 
 def step (st : HSM.State) (line : String) : HSM.State × String :=
